@@ -323,6 +323,17 @@ impl DataModule {
             .join(", ");
         s.push_str(&format!("pub const items: List<Item> = [{items}]\n\n"));
         s.push_str(&format!("pub const limit: Int = {}\n\n", self.limit));
+        s.push_str(&format!(
+            "pub const sample_rec: Rec =\n  Rec {{ owner: \"{}\", limit: {}{} }}\n\n",
+            self.name,
+            self.limit,
+            if self.rec_extra { ", extra: [1, 2]" } else { "" }
+        ));
+        // The same multi-line `expect` at two nesting depths: its failure-trace message is equal
+        // modulo whitespace but not byte-identical (rule (b): anything keyed too coarsely —
+        // here by whitespace-stripped text — becomes history dependent).
+        s.push_str("pub fn must(r: Option<Rec>) -> Int {\n  expect Some(Rec {\n    limit,\n    ..\n  }) = r\n  limit\n}\n\n");
+        s.push_str("pub fn must_when(flag: Bool, r: Option<Rec>) -> Int {\n  if flag {\n    expect Some(Rec {\n      limit,\n      ..\n    }) = r\n    limit\n  } else {\n    0\n  }\n}\n\n");
         if acc_style {
             s.push_str("pub fn len(xs: List<a>) -> Int {\n  do_len(xs, 0)\n}\n\nfn do_len(xs: List<a>, acc: Int) -> Int {\n  when xs is {\n    [] -> acc\n    [_, ..rest] -> do_len(rest, acc + 1)\n  }\n}\n\n");
         } else {
@@ -361,7 +372,10 @@ fn test_module(rng: &mut Rng, idx: usize, data: &[DataModule], n_tests: usize) -
         let on = &o.name;
         let truth = rng.chance(3, 4);
         let off = if truth { 0 } else { 1 + rng.range(0, 3) };
-        let body = match rng.below(12) {
+        let body = match rng.below(15) {
+            12 => format!("test t{idx}_{t}_must() {{\n  {n}.must(Some({n}.sample_rec)) == {}\n}}\n", d.limit + off),
+            13 => format!("test t{idx}_{t}_must_when() {{\n  {n}.must_when(True, Some({n}.sample_rec)) + {on}.must_when(False, None) == {}\n}}\n", d.limit + off),
+            14 => format!("test t{idx}_{t}_must_fails() fail {{\n  {n}.must(None) == {}\n}}\n", d.limit),
             0 => format!("test t{idx}_{t}_len() {{\n  {n}.len({n}.table) == {}\n}}\n", d.table_len() + off),
             1 => {
                 let (k, v) = &d.table[rng.usize_below(d.table.len())];
@@ -479,7 +493,7 @@ fn validator_module(rng: &mut Rng, idx: usize, data: &[DataModule]) -> String {
         s.push_str(&format!("validator v{idx}_{v}{plist} {{\n"));
         let handlers = 1 + rng.usize_below(3);
         s.push_str(&format!(
-            "  spend(datum: Option<{an}.Rec>, redeemer: Int, _own_ref: Data, _self: Data) {{\n    expect Some(d) = datum\n    {an}.check_rec(d, redeemer + {psum}) && {bn}.len({bn}.table) >= {k}\n  }}\n\n",
+            "  spend(datum: Option<{an}.Rec>, redeemer: Int, _own_ref: Data, _self: Data) {{\n    expect Some(d) = datum\n    {an}.check_rec(d, redeemer + {psum}) && {bn}.len({bn}.table) >= {k} && {an}.must_when(redeemer > 5, datum) >= 0\n  }}\n\n",
             an = a.name,
             bn = b.name,
             k = rng.range(0, 4)
